@@ -133,7 +133,7 @@ PROPS = {
         design_ref="DESIGN.md section 4, C13",
     ),
     "C16": S(
-        e.C16 + [e.eng5, e.eng2, e.eng34, glue.glue9],
+        e.C16 + [e.eng5, e.eng2, e.eng34, e.opt4, glue.glue9],
         explanation="extract_outermost and extract_child consume the same generator function with (stackitem, fresh error list) and extract_outermost returns its first item; in extract_outermost's StopIteration handler every path raises "
                     "(the recorded error, an ExceptionGroup of them, or a new RuntimeError, by count); the package's only Frame(...) construction is preceded by the filter that reduces origin to a generator/coroutine/async generator or None; "
                     "better_origin falls back when the candidate is not weak-referenceable.",
@@ -258,7 +258,7 @@ PROPS = {
         design_ref="DESIGN.md section 4, C17",
     ),
     "C03": S(
-        [slices.slc4, e.eng1, e.eng34, cc.eng6, e.truth1, e.truth2, e.asend1, safety.idkey1] + version.API,
+        [slices.slc4, e.eng1, e.eng34, cc.eng6, e.truth1, e.truth2, e.asend1, e.asend2, e.eng7, e.eng5, safety.idkey1] + version.API,
         explanation="Thin: structural necessary conditions of 'the frames are the path an exception would take'. The three built-in unwrappers, as truth tables over the tests they make: a suspended generator / coroutine / "
                     "async generator unwraps to (its frame, what it delegates to) in that order, with attributes of its own family that exist on every supported interpreter (SLC-4, VER-5, VER-5b); unwrap results take the "
                     "unwrapped item's place in order, one level deeper, and the queue is drained before a frame is elaborated (ENG-3, ENG-4); the only bound on the chain is the counter of unwraps *without progress*, reset at every "
@@ -273,7 +273,7 @@ PROPS = {
         design_ref="DESIGN.md section 13.4",
     ),
     "C14": S(
-        cc.C14 + [safety.thr2, e.opt56, e.eng1, o.alias1, o.exi1_producers, o.exi2_consumers] + version.API,
+        cc.C14 + [safety.thr2, e.opt56, e.eng1, e.eng2, o.alias1, o.exi1_producers, o.exi2_consumers] + version.API,
         explanation="Thin: structural necessary conditions in the Trio glue. A nursery context's obj is manager._nursery and its children are exactly [extract_child(t, for_task=True) for t in that nursery's child_tasks] "
                     "(unfiltered, in order); a Task unwraps to task.coro (TRIO-1); extract_child(for_task=True) returns a stub exactly when recursion was not requested (OPT-5/6); the worker thread of to_thread.run_sync is matched "
                     "by identity of the name object, not by its value (THR-2); the search for the Trio runner skips thread-local dicts without a 'runner' entry instead of failing (TRIO-2).",
